@@ -292,6 +292,10 @@ pub fn c20(ctx: &Ctx) -> Report {
     }
     let req = ["response delivered", "timed out"];
     let mut rep = c20_slices(ctx, runs, &req);
+    // thread teardown: small histories of four families in the body of a thread and again from a
+    // thread-local destructor at its exit (child process)
+    crate::teardown::judge("C20", "agent", &mut rep.acc);
+    rep.assumptions.push("thread teardown probe (harness/src/teardown.rs): 12 small histories (transactions, peers, sizes, responses x UDP / TCP) replayed from the destructor of a thread-local registered before the library's first use on the thread, in a child process; replies must equal those of the thread body".into());
     rep.assumptions.push(format!(
         "ambient seams (harness/src/ambient.rs): clock_gettime and getenv of this process are the harness' own; on the replay threads of this run the clock was read {} time(s) (the harness' own wall-clock variants included) and the environment was asked {} time(s) for names other than RUST_*, VERIF_*, NO_COLOR (names read: {:?}); every name read is re-run under {} values and unset",
         crate::ambient::CLOCK_READS.load(std::sync::atomic::Ordering::Relaxed),
